@@ -4056,3 +4056,8 @@ fn parse_unmod(
         _ => panic!("Unknown unmod type {unmod_type}"),
     }
 }
+
+// Verification hook (add-only, compiled only by `cargo kani`): contract harnesses live in /verif.
+#[cfg(kani)]
+#[path = "/verif/kani/harness/cfg.rs"]
+mod verif_kani;
